@@ -199,6 +199,24 @@ Definition show_bytes_ok (b : list N) : string := "Ok " ++ hex b.
 (** the decode channels, as the executors run them *)
 Definition ch_dec (o : opts) (b : list N) : string := show_outcome show_mres (m_decode o b).
 Definition ch_avps (b : list N) : string := show_outcome show_avpres (m_avps b).
+
+(** A reader that hands out at most [k] octets at a time: [bytes(n)] answers [None] for n > k although enough octets
+    remain (the trait lets an implementation refuse -- a ring buffer across its wrap-around, a chunked source); every other
+    operation is the list reader's.  The decoders' [ok_or(..ReadError)] arms are reachable only through such a reader. *)
+Definition LimitReader (k : N) : ReaderImpl := {|
+  R := list N;
+  r_len := fun l => len l;
+  r_is_empty := fun l => match l with [] => true | _ => false end;
+  r_u8 := lr_read 1; r_u16 := lr_read 2; r_u32 := lr_read 4; r_u64 := lr_read 8;
+  r_bytes := fun n l =>
+    if andb (N.leb n k) (N.leb n (len l)) then Val (Some (takeN n l), dropN n l) else Val (None, l);
+  r_skip := fun n l => if N.leb n (len l) then Val (dropN n l) else Panic PkIndex;
+  r_sub := fun n l => if N.leb n (len l) then Val (takeN n l, dropN n l) else Panic PkIndex
+|}.
+Definition ch_dec_lim (k : N) (o : opts) (b : list N) : string :=
+  show_outcome show_mres (grun (LimitReader k) (msg_read o) b).
+Definition ch_avps_lim (k : N) (b : list N) : string :=
+  show_outcome show_avpres (grun (LimitReader k) avps_read b).
 Definition ch_type (t : N) (b : list N) : string := show_outcome show_typeres (m_decode_avp t b).
 
 (** the encode channels *)
